@@ -3,10 +3,15 @@ export GOPROXY=off
 export GOSUMDB=off
 export GOTOOLCHAIN=local
 
-setup: bin/symgo
+# setup: build the engine from /verif/engine (x/tools v0.29.0 from the module cache) and run the
+# engine self-check: the concrete interpreter and the regexp models against the natively compiled package.
+setup: bin/symgo selfcheck
 
 bin/symgo: $(wildcard engine/*.go) engine/go.mod
 	mkdir -p bin .work
 	cd engine && go build -o ../bin/symgo .
 
-.PHONY: setup
+selfcheck: bin/symgo
+	./bin/symgo check -noevidence smoke quick
+
+.PHONY: setup selfcheck
